@@ -76,6 +76,19 @@ fn signer_class(caller: Who, signer: Who) -> &'static str {
     }
 }
 
+/// ledgers that pass in an idle probe: beyond every temporary-entry lifetime and every TTL
+/// extension the access library performs (the largest is ROLE_EXTEND_AMOUNT = 90 days = 1555200
+/// ledgers, applied on every role read; owner / everything else: 30 days = 518400), below the
+/// persistent TTL of `envx::mk_env` (3000000). With 600000 an entry that was read once through a
+/// role getter would outlive the probe even if it were kept in temporary storage.
+const IDLE: u32 = 2_000_000;
+
+/// A disagreement found after the idle period: nothing was called in between, so whatever differs
+/// from the model was lost (or appeared) through the passage of time alone.
+fn idle_viol(v: Violation) -> Violation {
+    Violation::new("state-survives-idle", format!("after {IDLE} ledgers without any call [{}] {}", v.oracle, v.detail))
+}
+
 fn okstr(ok: bool) -> &'static str {
     if ok {
         "ok"
@@ -265,6 +278,10 @@ enum Op {
     RemoveRoleAdmin { role: Role, signer: Who },
     /// wrapper: `#[only_admin]` + `remove_role_accounts_count_no_auth` (leaf probe)
     RemoveCount { role: Role, signer: Who },
+    /// no call at all: on a rebuilt copy of the state `IDLE` ledgers pass without any invocation
+    /// (beyond the lifetime of every temporary entry and of every TTL extension the library
+    /// performs) and the whole membership observation is repeated against the unchanged model
+    IdleProbe,
 }
 
 #[derive(Clone, Debug, PartialEq, Eq, Hash)]
@@ -344,6 +361,7 @@ impl Model {
             Op::RemoveRoleAdmin { role, .. } => self.role_admin[*role as usize] = None,
             // removes a bookkeeping entry only: the queryable membership stays what it was
             Op::RemoveCount { .. } => {}
+            Op::IdleProbe => {}
         }
     }
 }
@@ -419,10 +437,14 @@ impl Ac {
             Op::RenounceAdmin { signer } => ("renounce_admin", SVec::new(e), *signer),
             Op::RemoveRoleAdmin { role, signer } => ("remove_role_admin", (sym(*role),).into_val(e), *signer),
             Op::RemoveCount { role, signer } => ("remove_role_count", (sym(*role),).into_val(e), *signer),
+            Op::IdleProbe => unreachable!("the idle probe is not a contract call"),
         }
     }
 
     fn exec(&self, i: &Inst, op: &Op) -> bool {
+        if matches!(op, Op::IdleProbe) {
+            return false;
+        }
         let (f, args, signer) = self.call(i, op);
         call_signed(&i.e, &i.c, f, args, &i.signers(signer)).is_ok()
     }
@@ -673,6 +695,7 @@ impl World for Ac {
                 out.push(op);
             }
         }
+        out.push(Op::IdleProbe);
         out
     }
 
@@ -687,6 +710,7 @@ impl World for Ac {
             Op::RenounceAdmin { .. } => "renounce_admin",
             Op::RemoveRoleAdmin { .. } => "only_admin:remove_role_admin",
             Op::RemoveCount { .. } => "only_admin:remove_role_count",
+            Op::IdleProbe => "idle-probe",
         }
         .to_string()
     }
@@ -700,6 +724,16 @@ impl World for Ac {
     }
 
     fn step(&self, i: &mut Inst, m: &mut Model, op: &Op, cx: &mut StepCtx<Self>) -> Result<bool, Violation> {
+        if matches!(op, Op::IdleProbe) {
+            // membership, enumerations, role admins and the admin are not time-dependent (the
+            // pending hand-over offer is, and it is not part of the observation)
+            let copy = cx.rebuild();
+            envx::advance(&copy.e, IDLE);
+            let n = self.observe(&copy, m).map_err(idle_viol)?;
+            cx.stats.count("idle-probes", 1);
+            cx.stats.count("getter-comparisons-after-long-idle", n);
+            return Ok(false);
+        }
         if cx.hist.is_empty() {
             // the seed state itself must already agree with the model
             let n = self.observe(i, m)?;
@@ -793,6 +827,7 @@ impl World for Ac {
                     );
                 }
             }
+            Op::IdleProbe => unreachable!(),
         }
         if !ok {
             return Ok(false);
@@ -845,6 +880,8 @@ enum MOp {
     Burn { from: Who, signer: Who },
     /// #[has_role(spender, "burner")] + require_auth inside Base::burn_from
     BurnFrom { spender: Who, from: Who, signer: Who },
+    /// as `Op::IdleProbe`
+    IdleProbe,
 }
 
 #[derive(Clone, Debug, PartialEq, Eq, Hash)]
@@ -891,9 +928,13 @@ impl Macros {
             // token k belongs to account k (seed); every owner approved every other account for all
             MOp::Burn { from, signer } => ("burn", (i.a(*from), *from as u32).into_val(e), *signer),
             MOp::BurnFrom { spender, from, signer } => ("burn_from", (i.a(*spender), i.a(*from), *from as u32).into_val(e), *signer),
+            MOp::IdleProbe => unreachable!("the idle probe is not a contract call"),
         }
     }
     fn exec(&self, i: &MInst, op: &MOp) -> bool {
+        if matches!(op, MOp::IdleProbe) {
+            return false;
+        }
         let (f, args, signer) = self.call(i, op);
         call_signed(&i.e, &i.c, f, args, &i.signers(signer)).is_ok()
     }
@@ -984,6 +1025,7 @@ impl World for Macros {
                 v.push(MOp::BurnFrom { spender: caller, from, signer });
             }
         }
+        v.push(MOp::IdleProbe);
         v
     }
 
@@ -998,6 +1040,7 @@ impl World for Macros {
             MOp::MultiAuth { .. } => "only_any_role:multi_role_auth_action",
             MOp::Burn { .. } => "has_role:burn",
             MOp::BurnFrom { .. } => "has_role:burn_from",
+            MOp::IdleProbe => "idle-probe",
         }
         .to_string()
     }
@@ -1011,6 +1054,15 @@ impl World for Macros {
     }
 
     fn step(&self, i: &mut MInst, m: &mut MModel, op: &MOp, cx: &mut StepCtx<Self>) -> Result<bool, Violation> {
+        if matches!(op, MOp::IdleProbe) {
+            // the seed's blanket approvals expire meanwhile; they are not part of the observation
+            let copy = cx.rebuild();
+            envx::advance(&copy.e, IDLE);
+            let n = self.observe(&copy, m).map_err(idle_viol)?;
+            cx.stats.count("idle-probes", 1);
+            cx.stats.count("getter-comparisons-after-long-idle", n);
+            return Ok(false);
+        }
         let ok = self.exec(i, op);
         let kind = self.kind(op);
         let is_admin = |w: Who| !m.renounced && w != Who::Nobody && m.admin == Some(w);
@@ -1104,6 +1156,8 @@ enum OOp {
     Transfer { new: Who, signer: Who },
     Accept { signer: Who },
     Renounce { signer: Who },
+    /// as `Op::IdleProbe`: the owner is the same after a long time without calls
+    IdleProbe,
 }
 
 #[derive(Clone, Debug, PartialEq, Eq, Hash)]
@@ -1117,12 +1171,16 @@ struct Own;
 
 impl Own {
     fn exec(&self, i: &MInst, op: &OOp) -> bool {
+        if matches!(op, OOp::IdleProbe) {
+            return false;
+        }
         let e = &i.e;
         let (f, args, signer): (&str, SVec<Val>, Who) = match op {
             OOp::Increment { signer } => ("increment", SVec::new(e), *signer),
             OOp::Transfer { new, signer } => ("transfer_ownership", (i.a(*new), envx::now(e) + OFFER_TTL).into_val(e), *signer),
             OOp::Accept { signer } => ("accept_ownership", SVec::new(e), *signer),
             OOp::Renounce { signer } => ("renounce_ownership", SVec::new(e), *signer),
+            OOp::IdleProbe => unreachable!(),
         };
         call_signed(e, &i.c, f, args, &i.signers(signer)).is_ok()
     }
@@ -1175,6 +1233,7 @@ impl World for Own {
         for signer in MSIGNERS {
             v.push(OOp::Renounce { signer });
         }
+        v.push(OOp::IdleProbe);
         v
     }
 
@@ -1184,6 +1243,7 @@ impl World for Own {
             OOp::Transfer { .. } => "transfer_ownership",
             OOp::Accept { .. } => "accept_ownership",
             OOp::Renounce { .. } => "renounce_ownership",
+            OOp::IdleProbe => "idle-probe",
         }
         .to_string()
     }
@@ -1197,6 +1257,17 @@ impl World for Own {
     }
 
     fn step(&self, i: &mut MInst, m: &mut OModel, op: &OOp, cx: &mut StepCtx<Self>) -> Result<bool, Violation> {
+        if matches!(op, OOp::IdleProbe) {
+            // a pending offer (live_until = now + OFFER_TTL) has expired by then, which is correct and
+            // not observed; the owner itself must be who the model says
+            let copy = cx.rebuild();
+            envx::advance(&copy.e, IDLE);
+            let got = self.owner(&copy).map_err(idle_viol)?;
+            ensure!(got == m.owner, "state-survives-idle", "get_owner = {:?} after {IDLE} ledgers without any call, model {:?}", got, m.owner);
+            cx.stats.count("idle-probes", 1);
+            cx.stats.count("getter-comparisons-after-long-idle", 1);
+            return Ok(false);
+        }
         let ok = self.exec(i, op);
         let kind = self.kind(op);
         let is_owner = |w: Who| !m.renounced && w != Who::Nobody && m.owner == Some(w);
@@ -1220,6 +1291,7 @@ impl World for Own {
                     ensure!(m.pending.is_some() && m.pending == Some(*signer), "accept-authority", "{:?} succeeded while the pending owner is {:?}", op, m.pending);
                 }
             }
+            OOp::IdleProbe => unreachable!(),
         }
         if !ok || matches!(op, OOp::Increment { .. }) {
             return Ok(ok);
@@ -1234,7 +1306,7 @@ impl World for Own {
                 m.owner = None;
                 m.renounced = true;
             }
-            OOp::Increment { .. } => {}
+            OOp::Increment { .. } | OOp::IdleProbe => {}
         }
         let got = self.owner(i)?;
         cx.stats.count("getter-comparisons", 1);
@@ -1255,7 +1327,7 @@ impl World for Own {
 
 // ------------------------------------------------------------------------------------------
 
-const RULE: &str = "level-BFS over histories of grant_role / revoke_role (account, role, caller) / renounce_role / set_role_admin (all 9 role pairs: chains, r1<->r2 cycles, r->r) / transfer_admin_role + accept_admin_transfer / renounce_admin on the real AccessControl code behind a thin wrapper, roles {r1,r2,r3}, accounts {adm,a,b,c} (symmetry reduction: accounts / roles not yet named in an accepted call are interchangeable, only the first of them is used), caller in {contract admin, holder of the role's admin role, member of the role, member of another role, stranger}, every call under ENFORCING authorization signed by the caller / another account / nobody; seeds: empty, admin chain, cycle with the admin renounced, crowded roles, MAX_ROLES-1 roles; after every accepted call has_role for all pairs, get_role_member_count, get_role_member(i) for all i<count (+ three out-of-range indices), get_existing_roles, get_role_admin, get_admin are compared with the model (set of pairs, role-admin map, admin option); truth table of the macro-guarded entry points of the nft-access-control and ownable examples (function x role set of the named account x signer in {adm,a,b,nobody}) in every reachable role configuration, before and after renounce_admin / renounce_ownership; states merged by canonical storage digest; non-trivial = distinct state reached through at least one accepted call";
+const RULE: &str = "level-BFS over histories of grant_role / revoke_role (account, role, caller) / renounce_role / set_role_admin (all 9 role pairs: chains, r1<->r2 cycles, r->r) / transfer_admin_role + accept_admin_transfer / renounce_admin on the real AccessControl code behind a thin wrapper, roles {r1,r2,r3}, accounts {adm,a,b,c} (symmetry reduction: accounts / roles not yet named in an accepted call are interchangeable, only the first of them is used), caller in {contract admin, holder of the role's admin role, member of the role, member of another role, stranger}, every call under ENFORCING authorization signed by the caller / another account / nobody; seeds: empty, admin chain, cycle with the admin renounced, crowded roles, MAX_ROLES-1 roles; after every accepted call has_role for all pairs, get_role_member_count, get_role_member(i) for all i<count (+ three out-of-range indices), get_existing_roles, get_role_admin, get_admin are compared with the model (set of pairs, role-admin map, admin option); truth table of the macro-guarded entry points of the nft-access-control and ownable examples (function x role set of the named account x signer in {adm,a,b,nobody}) in every reachable role configuration, before and after renounce_admin / renounce_ownership; idle probe in every expanded state of every world: on a rebuilt copy 2000000 ledgers pass without any call (beyond every temporary lifetime and the library's largest TTL extension, 1555200) and all getters are compared with the model again; states merged by canonical storage digest; non-trivial = distinct state reached through at least one accepted call";
 
 fn main() {
     main_with("C06", "model_checking", RULE, |tier: Tier, r: &mut Runner| {
@@ -1306,7 +1378,7 @@ fn main() {
             ];
             let all: Vec<&str> = ac.iter().chain(guarded.iter()).copied().collect();
             rep.require(&all, &all);
-            let mut counters: Vec<String> = vec!["getter-comparisons".into()];
+            let mut counters: Vec<String> = vec!["getter-comparisons".into(), "idle-probes".into(), "getter-comparisons-after-long-idle".into()];
             for k in ["grant_role", "revoke_role"] {
                 for c in ["contract-admin", "role-admin-holder", "role-admin-holder(no contract admin)"] {
                     counters.push(format!("{k}: caller={c} signer=self -> ok"));
